@@ -474,9 +474,154 @@ fn packets(rep: &mut Report, rng: &mut Rng) {
     let _ = special_f32;
 }
 
+/// Very long, very dull inputs, each in a child process (an allocation failure
+/// aborts the process and cannot be caught): several minutes of signal without
+/// a single transition through the clock-recovery blocks (2^24 + 1000 samples:
+/// where an f32 sample counter stops counting), then a few transitions; and a
+/// one-million-sample burst with two transitions through the burst blocks.
+pub fn child(mode: &str) -> i32 {
+    use rustradio::block::{Block, BlockRet};
+    use rustradio::stream::{new_nocopy_stream, new_stream};
+    let report = |ok: bool, msg: String| -> i32 {
+        println!("{}", json!({"ok": ok, "msg": msg}));
+        if ok { 0 } else { 3 }
+    };
+    let quiet_then_flips = |level: f32, blk: &mut dyn Block, tx: &rustradio::stream::WriteStream<f32>, drain: &mut dyn FnMut()| -> Result<(), String> {
+        let total: usize = (1 << 24) + 1000;
+        let mut sent = 0usize;
+        let mut tail: Vec<f32> = vec![1.0, -1.0, 1.0, -1.0, 1.0, -1.0, 1.0, 1.0, -1.0, -1.0];
+        for _ in 0..10_000 {
+            {
+                let mut o = tx.write_buf().map_err(|e| format!("{e}"))?;
+                let n = o.len().min(total - sent);
+                if n > 0 {
+                    o.slice()[..n].fill(level);
+                    o.produce(n, &[]);
+                    sent += n;
+                } else if sent == total && !tail.is_empty() && o.len() >= tail.len() {
+                    let n = tail.len();
+                    o.slice()[..n].copy_from_slice(&tail);
+                    o.produce(n, &[]);
+                    tail.clear();
+                }
+            }
+            for _ in 0..64 {
+                let again = matches!(blk.work().map_err(|e| format!("{e}"))?, BlockRet::Again);
+                drain();
+                if !again {
+                    break;
+                }
+            }
+            if sent == total && tail.is_empty() {
+                for _ in 0..64 {
+                    let again = matches!(blk.work().map_err(|e| format!("{e}"))?, BlockRet::Again);
+                    drain();
+                    if !again {
+                        break;
+                    }
+                }
+                return Ok(());
+            }
+        }
+        Err("did not get through the input in 10000 rounds".into())
+    };
+    let r = catch(|| -> Result<String, String> {
+        match mode {
+            "symbolsync-quiet-negative" | "symbolsync-quiet-zero" | "symbolsync-quiet-clock" => {
+                let (tx, rx) = new_stream::<f32>();
+                let (mut b, o) = rustradio::blocks::SymbolSync::new(rx, 4.0, 0.5, Box::new(rustradio::symbol_sync::TedZeroCrossing::new()), Box::new(rustradio::iir_filter::IirFilter::new(&[0.1, 0.9])));
+                let clk: Option<rustradio::stream::ReadStream<f32>> = if mode.ends_with("clock") { b.out_clock() } else { None };
+                let mut drain = || {
+                    for s in [Some(&o), clk.as_ref()].into_iter().flatten() {
+                        if let Ok((rb, _)) = s.read_buf() {
+                            let n = rb.len();
+                            rb.consume(n);
+                        }
+                    }
+                };
+                quiet_then_flips(if mode.contains("zero") { 0.0 } else { -1.0 }, &mut b, &tx, &mut drain)?;
+                Ok("SymbolSync got through 2^24+1000 samples without a transition and the transitions after them".into())
+            }
+            "zerocrossing-quiet-negative" | "zerocrossing-quiet-zero" => {
+                let (tx, rx) = new_stream::<f32>();
+                let (mut b, o) = rustradio::blocks::ZeroCrossing::new(rx, 5.2083, 0.1);
+                let mut drain = || {
+                    if let Ok((rb, _)) = o.read_buf() {
+                        let n = rb.len();
+                        rb.consume(n);
+                    }
+                };
+                quiet_then_flips(if mode.contains("zero") { 0.0 } else { -1.0 }, &mut b, &tx, &mut drain)?;
+                Ok("ZeroCrossing got through".into())
+            }
+            "wpcr-long-burst" | "midpointer-long-burst" => {
+                let n = 1_000_000usize;
+                let burst: Vec<f32> = (0..n).map(|i| if i >= n / 4 && i < n / 4 + n / 2 { 1.0 } else { -1.0 }).collect();
+                let (tx, rx) = new_nocopy_stream::<Vec<f32>>();
+                tx.push(burst, &[]);
+                if mode.starts_with("wpcr") {
+                    let (mut b, o) = rustradio::blocks::Wpcr::new(rx);
+                    b.work().map_err(|e| format!("{e}"))?;
+                    Ok(format!("Wpcr answered with {:?} symbols", o.pop().map(|(v, _)| v.len())))
+                } else {
+                    let (mut b, o) = rustradio::blocks::Midpointer::new(rx);
+                    b.work().map_err(|e| format!("{e}"))?;
+                    Ok(format!("Midpointer answered with {:?} samples", o.pop().map(|(v, _)| v.len())))
+                }
+            }
+            other => Err(format!("unknown mode {other}")),
+        }
+    });
+    match r {
+        Ok(Ok(m)) => report(true, m),
+        Ok(Err(e)) => report(true, format!("returned an error (fine): {e}")),
+        Err(p) => report(false, format!("panicked: {p}")),
+    }
+}
+
+fn long_inputs(rep: &mut Report) {
+    let exe = std::env::current_exe().expect("exe");
+    for mode in ["symbolsync-quiet-negative", "symbolsync-quiet-zero", "symbolsync-quiet-clock", "zerocrossing-quiet-negative", "zerocrossing-quiet-zero", "wpcr-long-burst", "midpointer-long-burst"] {
+        rep.eval();
+        rep.count("long_dull_inputs", 1);
+        rep.set("long_dull_inputs", mode);
+        let replay = json!({"part": "long-input", "mode": mode});
+        // a 6 GiB address-space cap: an absurd allocation fails instead of thrashing
+        let mut cmd = std::process::Command::new(&exe);
+        cmd.args(["c15-child", mode]);
+        unsafe {
+            use std::os::unix::process::CommandExt;
+            cmd.pre_exec(|| {
+                let lim = libc::rlimit { rlim_cur: 6 << 30, rlim_max: 6 << 30 };
+                libc::setrlimit(libc::RLIMIT_AS, &lim);
+                Ok(())
+            });
+        }
+        match cmd.output() {
+            Err(e) => rep.inconclusive(format!("cannot run child: {e}")),
+            Ok(o) => {
+                let txt = String::from_utf8_lossy(&o.stdout).to_string();
+                let v: Option<Value> = txt.lines().rev().find_map(|l| serde_json::from_str(l).ok());
+                match (o.status.code(), v) {
+                    (Some(0), Some(_)) => rep.count("long_dull_inputs_survived", 1),
+                    (Some(3), Some(v)) => {
+                        let m = v["msg"].as_str().unwrap_or("").to_string();
+                        rep.violation(format!("C15|long-input|{mode}|{}", sig_of_msg(&m)), m, replay)
+                    }
+                    (code, _) => rep.violation(
+                        format!("C15|long-input|{mode}|process-died"),
+                        format!("the process died ({code:?}, signal {:?}) on a long dull input; stderr: {}", std::os::unix::process::ExitStatusExt::signal(&o.status), String::from_utf8_lossy(&o.stderr).chars().take(300).collect::<String>()),
+                        replay,
+                    ),
+                }
+            }
+        }
+    }
+}
+
 pub fn main(opts: &Opts) -> Report {
     let mut rep = Report::new("C15");
-    rep.rule = "every catalogue block driven by drip-feed schedules with inputs that mix NaN, +-inf, denormals and huge values (float blocks) ; HdlcDeframer/RtlSdrDecode/AuDecode with arbitrary bytes; StreamToPdu with arbitrary tag sequences; exhaustive AU header mutations (data offset 0..40, 2^31, 2^32-1; 7 encodings; 4 rates; 4 channel counts; truncations 0..28); SigMF recordings with hostile metadata (type confusion, missing keys, huge numbers, non-JSON) and archives (wrong entry types, duplicate names, non-UTF-8 names, sparse, truncated, corrupted); all bursts of length 0..6 (quick) / 0..8 (thorough) over {-1,0,1,NaN,+inf} through Midpointer and Wpcr; packets of length 0..8 through VecToStream. Oracle: every call returns Ok or Err - never unwinds, aborts, or answers Again 65 times without a stream event; distinct = (target, input seed or input bytes)".into();
+    rep.rule = "every catalogue block driven by drip-feed schedules with inputs that mix NaN, +-inf, denormals and huge values (float blocks) ; HdlcDeframer/RtlSdrDecode/AuDecode with arbitrary bytes; StreamToPdu with arbitrary tag sequences; exhaustive AU header mutations (data offset 0..40, 2^31, 2^32-1; 7 encodings; 4 rates; 4 channel counts; truncations 0..28); SigMF recordings with hostile metadata (type confusion, missing keys, huge numbers, non-JSON) and archives (wrong entry types, duplicate names, non-UTF-8 names, sparse, truncated, corrupted); all bursts of length 0..6 (quick) / 0..8 (thorough) over {-1,0,1,NaN,+inf} through Midpointer and Wpcr; packets of length 0..8 through VecToStream; in child processes: 2^24+1000 samples without a transition and then a few transitions through SymbolSync (with and without clock output) and ZeroCrossing, and a one-million-sample burst with two transitions through Wpcr and Midpointer. Oracle: every call returns Ok or Err - never unwinds, aborts, or answers Again 65 times without a stream event; distinct = (target, input seed or input bytes)".into();
     rep.assume("a worker process killed by SIGSEGV/SIGABRT is reported by the driver as a violation; the address-sanitizer build of the same workload runs in the thorough tier");
     rec::install(true);
     let mut rng = Rng::new(opts.shard_seed() ^ 0xC15);
@@ -486,6 +631,12 @@ pub fn main(opts: &Opts) -> Report {
     let before = rep.evaluations;
     catalogue_with_specials(opts, &mut rep, &mut rng);
     arbitrary_bytes(opts, &mut rep, &mut rng);
+    // (not under AddressSanitizer: its shadow memory does not fit the children's
+    // address-space cap, and the cap is what turns an absurd allocation into a
+    // clean failure instead of thrashing)
+    if (opts.shard == 1 || opts.nshards == 1) && opts.val("variant").as_deref() != Some("asan") {
+        long_inputs(&mut rep);
+    }
     if opts.shard == 0 {
         au_headers(&mut rep);
     }
